@@ -36,6 +36,10 @@ def main():
     sys.path.insert(0, repo)
     sys.path.insert(0, HERE)
     os.environ.setdefault("DATA_ALGEBRA_VERIF", "1")
+    # one explorer process per core: keep the numeric libraries single-threaded inside each
+    os.environ.setdefault("POLARS_MAX_THREADS", "1")
+    os.environ.setdefault("OMP_NUM_THREADS", "1")
+    os.environ.setdefault("OPENBLAS_NUM_THREADS", "1")
     import warnings
 
     warnings.filterwarnings("ignore")
